@@ -15,9 +15,13 @@ def NoBadAdjacent (bad : Nat → Nat → Prop) : List Nat → Prop
   | a :: b :: rest => ¬ bad a b ∧ NoBadAdjacent bad (b :: rest)
   | _ => True
 
-/-- The canonical encodings, exactly as the property states them: consistent lengths,
-`colptr` monotone with last entry `nnz`, row indices strictly increasing inside every
-column and all `< m`.  (`colptr[0] = 0` is *not* demanded — neither does the code.) -/
+/-- The column-wise part of "canonical encoding": consistent lengths, `colptr` monotone with
+last entry `nnz`, row indices strictly increasing inside every column and all `< m`.
+`colptr[0] = 0` is not a field of this structure (it is constructed anonymously in many
+places); the honest notion of a canonical encoding — the one `check_format` accepts since
+/repo 190e6c4 — is `Canonical0` below, which adds it.  Before that fix the code accepted
+every `Canonical` encoding, including those whose first `colptr[0]` stored entries belong to
+no column. -/
 structure Canonical (M : Csc α) : Prop where
   len_eq : M.rowval.size = M.nzval.size
   colptr_size : M.colptr.size = M.n + 1
@@ -25,6 +29,12 @@ structure Canonical (M : Csc α) : Prop where
   colptr_mono : NoBadAdjacent (fun a b => a > b) M.colptr.toList
   rows_sorted : ∀ j, j < M.n → NoBadAdjacent (fun a b => a ≥ b) (M.colRows j)
   rows_bound : ∀ r ∈ M.rowval.toList, r < M.m
+
+/-- The canonical encodings: `Canonical` and the first column starts at the first stored
+entry.  `check_format` accepts exactly these (`C16.check_format_iff`). -/
+structure Canonical0 (M : Csc α) : Prop where
+  canon : Canonical M
+  colptr_zero : M.colptr.getD 0 0 = 0
 
 end Clarabel.C16
 
